@@ -432,3 +432,47 @@ pub fn guard<T>(f: impl FnOnce() -> T) -> Result<T, String> {
 pub fn silence_panics() {
     std::panic::set_hook(Box::new(|_| {}));
 }
+
+/// Coverage-guided campaign (thorough tiers): builds the cargo-fuzz target under harness/fuzz and runs it for a fixed
+/// number of runs from a fresh scratch corpus seeded with `seeds`. Returns Ok(Some(input)) if libFuzzer saved a
+/// crashing input, Ok(None) if the campaign ended cleanly, Err(text) if the target could not be built / run
+/// (infrastructure: never a verdict). libFuzzer's `-seed` pins a campaign only approximately; the saved input is the
+/// reproducible unit and is re-checked by the caller through the deterministic path before it is reported.
+pub fn fuzz_campaign(target: &str, runs: u64, max_len: usize, seed: u64, seeds: &[Vec<u8>]) -> Result<(Option<Vec<u8>>, String), String> {
+    let root = verif_root();
+    let hdir = root.join("harness");
+    let build = std::process::Command::new("cargo").args(["+nightly", "fuzz", "build", target]).current_dir(&hdir).env("CARGO_NET_OFFLINE", "true").env_remove("CARGO_TARGET_DIR").output().map_err(|e| e.to_string())?;
+    if !build.status.success() {
+        return Err(format!("cargo fuzz build failed: {}", String::from_utf8_lossy(&build.stderr).lines().rev().take(5).collect::<Vec<_>>().join(" | ")));
+    }
+    let bin = hdir.join("fuzz").join("target").join("x86_64-unknown-linux-gnu").join("release").join(target);
+    let work = root.join("target").join(format!("fuzz-{target}"));
+    let _ = std::fs::remove_dir_all(&work);
+    let corpus = work.join("corpus");
+    let arts = work.join("artifacts");
+    std::fs::create_dir_all(&corpus).map_err(|e| e.to_string())?;
+    std::fs::create_dir_all(&arts).map_err(|e| e.to_string())?;
+    for (i, s) in seeds.iter().enumerate() {
+        let _ = std::fs::write(corpus.join(format!("seed-{i:04}")), s);
+    }
+    let out = std::process::Command::new(&bin)
+        .arg(&corpus)
+        .args([format!("-runs={runs}"), format!("-seed={}", seed.max(1) & 0x7fff_ffff), format!("-max_len={max_len}"), "-len_control=0".into(), "-print_final_stats=1".into(), "-rss_limit_mb=4096".into(), format!("-artifact_prefix={}/", arts.display())])
+        .env("VERIF_ROOT", &root)
+        .output()
+        .map_err(|e| e.to_string())?;
+    let text = String::from_utf8_lossy(&out.stderr).to_string();
+    let stat = text.lines().filter(|l| l.starts_with("stat::") || l.starts_with("Done ")).collect::<Vec<_>>().join("; ");
+    let mut crash = None;
+    if let Ok(rd) = std::fs::read_dir(&arts) {
+        for e in rd.flatten() {
+            if let Ok(b) = std::fs::read(e.path()) {
+                crash = Some(b);
+                break;
+            }
+        }
+    }
+    let viol = text.lines().find(|l| l.starts_with("FUZZ-VIOLATION")).unwrap_or("").to_string();
+    let _ = std::fs::remove_dir_all(&corpus);
+    Ok((crash, format!("{stat} {viol}")))
+}
